@@ -9,7 +9,7 @@ NEEDS = ["acc_close_to_zero_abs_tol", "dist_close_to_zero_abs_tol"]   # the seco
 
 
 def streams():
-    return [A.BatStream(), A.PVStream(), A.BatAlgStream(), A.ConcPVStream(), A.ConcBatStream(), A.WiredBatStream()]
+    return [A.BatStream(), A.PVStream(), A.BatAlgStream(), A.ConcPVStream(), A.ConcBatStream(), A.WiredBatStream(), A.WiredPVStream()]
 
 
 ASSUMPTIONS = [
@@ -25,6 +25,14 @@ ASSUMPTIONS = [
     "of its own request and the outcomes of its own calls; this is not proved about the code, it is tied by the "
     "conc_pv / conc_battery streams (2-3 concurrent requests for disjoint component sets on ONE manager instance, "
     "scripted reply latencies, every Result judged against its own request and compared with the model).",
+    "The Result judged is the object that was SENT: the wired_battery / wired_pv streams build the managers with their "
+    "real constructors on a fake microgrid (component graph + data streams; real ComponentPoolStatusTracker and "
+    "Battery/PVInverterStatusTrackers, real distribution algorithm, real results channel, timeouts of 5 s, 2.5 s and "
+    "0.75 s), run histories of 1-3 requests, let a battery / inverter start reporting an unusable state (error state, "
+    "opened relay, NaN capacity, inverter error) while set_power calls are in flight, read each Result from the "
+    "results channel after the request settled and read the retained objects again at the end of the history "
+    "(a Result must not change after it was sent). The model takes the recorded set_power calls and the reported "
+    "excess as inputs there.",
     "A call that has not replied when the timeout fires counts as timed out (failed) whatever happens afterwards: the "
     "scripted outcomes include replies that would arrive after the timeout and calls whose cancellation takes time to "
     "unwind (CancelledError caught, sleep, re-raised), alone and combined, in all streams. A client call that swallows "
